@@ -126,6 +126,8 @@ die(int code, const char* what)
 {
   fprintf(stderr, "simgomp: %s\n", what);
   fflush(nullptr);
+  if (code == 78 && sim::deadlock_hook)
+    sim::deadlock_hook(what);
   _exit(code);
 }
 
